@@ -17,7 +17,7 @@ from tagfam import _run_jobs
 
 FAMILY_FILES = ["harness/gendesign.py", "harness/relfam.py", "harness/relrun.py", "harness/variants.py", "harness/vlex.py", "harness/tagfam.py", "spec/Relayout.tla", "spec/RelayoutTrace.tla", "spec/RelayoutTrace.cfg",
                 "spec/MC_Relayout.cfg", "spec/Mutant_Relayout_Layout.cfg"]
-QUICK = ["tight", "eol1", "eolt1", "own1", "widen", "narrow", "break3a", "break3b", "break3c", "breakcmt3a", "breakcmt3b", "breakcmt3c", "join2a", "upper", "flip"]
+QUICK = ["lopl", "tight", "eol1", "eolt1", "own1", "widen", "narrow", "break3a", "break3b", "break3c", "breakcmt3a", "breakcmt3b", "breakcmt3c", "join2a", "upper", "flip"]
 
 
 def collect(tier):
